@@ -5,11 +5,11 @@
 (* from IOEnv.PATHS.  (ii) fault sets x option sets, with MustFail from Loader.tla.                                      *)
 EXTENDS Loader, Json, IOUtils, SequencesExt
 Paths == ndJsonDeserialize(IOEnv.PATHS)
-Kinds == {"null", "bool", "int", "float", "string", "empty-list", "list-of-strings", "list-of-maps", "empty-map", "map", "int-keyed-map", "nested-list",
+Kinds == {"null", "bool", "int", "float", "string", "empty-list", "list-of-strings", "list-of-maps", "empty-map", "map", "int-keyed-map", "nested-list", "repeated-strings", "repeated-maps",
           "odd-strings", "odd-string", "odd-map", "reset-tag", "override-tag"}
 Positions == {"single", "override-top", "override-base", "extended-base", "extending", "included",
               "pair-map", "pair-list", "pair-string"}     \* the attribute present in both files: base of the given kind, override of the case kind
-SchemaKind(k) == CASE k \in {"empty-list", "list-of-strings", "list-of-maps", "nested-list", "odd-strings"} -> "array"
+SchemaKind(k) == CASE k \in {"empty-list", "list-of-strings", "list-of-maps", "nested-list", "odd-strings", "repeated-strings", "repeated-maps"} -> "array"
                    [] k \in {"empty-map", "map", "int-keyed-map", "odd-map", "override-tag"} -> "object"
                    [] k = "reset-tag" -> "null"
                    [] k = "int" -> "integer" [] k = "float" -> "number" [] k = "bool" -> "boolean" [] k = "null" -> "null" [] OTHER -> "string"
